@@ -392,8 +392,11 @@ for pid in ('C05', 'C06', 'C04', 'C03'):
     PROPS[pid].setdefault('mir', {'quick': []})
     for tier in ('quick', 'thorough'):
         if tier in PROPS[pid]['mir']:
-            PROPS[pid]['mir'][tier].append(mrun(['iter.overrides'], nmax=3 if tier == 'quick' else 6))
+            PROPS[pid]['mir'][tier].append(mrun(['iter.overrides'] + (['iter.into_iter'] if pid in ('C06', 'C03') else []), nmax=3 if tier == 'quick' else 6))
     PROPS[pid]['bounds'] += ' M (iter.overrides): every further method of the Iterator / DoubleEndedIterator / ExactSizeIterator impls of GenericArrayIter found in the MIR (overrides of provided methods), N <= 3 (thorough 6), arbitrary position, closures and destructors may panic: ownership obligations and the iterator invariant.'
+
+for pid in ('C06', 'C03'):
+    PROPS[pid]['bounds'] += ' M (iter.into_iter): for ALL 64-bit N the fresh by-value iterator reports len() == N and size_hint() == (N, Some(N)) through the crate\'s own accessors (narrowing integer casts and typenum\'s narrower constants wrap as the machine does).'
 
 # eighth round: "the boxed constructors build arrays far larger than the thread's stack" - frames on the path of a boxed constructor
 STACK = ['stack.box_generate', 'stack.try_boxed_from_iter', 'stack.box_from_iter', 'stack.box.map']
